@@ -538,7 +538,7 @@ def build_awkward_rp66(slot, s, layout='one', n=3, xs=None, xcode=7, highbytes=F
         nset['template'].append({'label': b'OWNER', 'code': 20})
         nset['objects'][0]['comps'].append({'count': 2, 'values': [b'Soci\xc3\xa9t\xc3\xa9 X', b'Soci\xe9t\xe9 X']})
         nset['objects'][1]['comps'].append({'count': 2, 'values': [b'\xc2\xb0C', b'\xb0C']})
-    sets = [c03.FILE_HEADER, c03.ORIGIN, cset, fset, pset, nset, vset]
+    sets = [c03.FILE_HEADER, c03.ORIGIN, cset, fset, pset, vset, nset]      # the private table in front of a public one
     recs = [{'eflr': True, 'type': c03.lrtype_for(x), 'payload': c03.encode_set(x)} for x in sets]
     t = {'channels': chans}
     for f in range(n):
@@ -747,7 +747,7 @@ def units_check(k, eflrs, units):
     return []
 
 
-def check_index_document(root, snap, expect):
+def check_index_document(root, snap, expect, private=True):
     """root: parsed RP66V1FileIndex; snap: memory_snapshot; expect: {'tables': [n per logical file], 'types': [...], 'frames': [...]} or None."""
     bad = []
     if root.name != 'RP66V1FileIndex':
@@ -771,6 +771,17 @@ def check_index_document(root, snap, expect):
                 bad.append(({'kind': 'index_structure', 'what': 'eflr_position'}, '%s: %s' % (type(err).__name__, err)))
             if pos is not None and pos != mem['eflr_pos']:
                 bad.append(({'kind': 'eflr_position'}, 'logical file %d: EFLR positions %r, index holds %r' % (k, pos, mem['eflr_pos'])))
+            # every table is written with its objects; only the default form (private=False) leaves out the objects of private tables
+            for e, objs in zip(eflrs, mem['numbers']):
+                try:
+                    lrt = parse_int(e.attrs.get('lr_type', ''))
+                except ValueError:
+                    lrt = -1
+                n_el = len(e.elements('Object'))
+                if n_el != len(objs) and not (not private and lrt >= 128 and n_el == 0):
+                    bad.append(({'kind': 'index_objects_missing', 'private_set': lrt >= 128}, 'logical file %d: <EFLR lr_type=%r set_type=%r> written with %d <Object> elements, '
+                                'the index holds %d objects' % (k, e.attrs.get('lr_type'), e.attrs.get('set_type'), n_el, len(objs))))
+                    break
             bad += numbers_check(k, eflrs, mem['numbers'])
             bad += units_check(k, eflrs, mem.get('units', []))
         lp = el.find('LogPass')
@@ -852,7 +863,7 @@ def check_rp66_index(data, expect, inject=None, name='f.dlis'):
         if not pr2.ok:
             bad.append(classify_failure(pr2, 'IndexXML', texts, texts))
         else:
-            bad += [(dict(sg, form='private=False'), 'private=False: ' + msg) for sg, msg in check_index_document(pr2.root, snap, expect)]
+            bad += [(dict(sg, form='private=False'), 'private=False: ' + msg) for sg, msg in check_index_document(pr2.root, snap, expect, private=False)]
     if inject and is_plain(inject[1]) and inject[1] in snap['bytes']:
         slot, s = inject
         tag, attr = RP_SLOTS[slot]
